@@ -5,6 +5,10 @@ from enc import SPELL, ulen, blen
 ALPHA14 = [ord(c) for c in "aif0x'/\\<=:\n "] + [0xE9]
 ALPHA16 = ALPHA14 + [ord("n"), ord("1")]
 WS = [32, 9, 13, 10]
+# code points that LOOK like (or are, for Unicode) white space / nothing at all but are NOT in SPL's blank set {SP, HT, CR, LF}:
+# every Unicode White_Space character, the zero-width / format characters, BOM, soft hyphen, a few controls
+LOOKALIKES = [0x0B, 0x0C, 0x1C, 0x1D, 0x1E, 0x1F, 0x85, 0xA0, 0xAD, 0x1680, 0x180E] + list(range(0x2000, 0x200E)) + \
+             [0x2028, 0x2029, 0x202F, 0x205F, 0x2060, 0x3000, 0xFEFF, 0x00, 0x01, 0x7F, 0xFFFD, 0xE0020]
 KEYWORDS = ["if", "else", "while", "array", "of", "proc", "ref", "type", "var"]
 SYMS = [k for k in SPELL if SPELL[k] not in KEYWORDS]
 KWS = [k for k in SPELL if SPELL[k] in KEYWORDS]
@@ -21,11 +25,25 @@ def random_text(rng, maxlen=40):
     pools = [
         lambda: rng.choice(ALPHA16),
         lambda: rng.randint(32, 126),
-        lambda: rng.choice([0xE9, 0x141, 0x20AC, 0x1F600, 0xA0, 0x0B, 0x0C, 0x85, 0x2028, 0xFF10, 0x661]),
+        lambda: rng.choice([0xE9, 0x141, 0x20AC, 0x1F600, 0xA0, 0x0B, 0x0C, 0x85, 0x2028, 0xFF10, 0x661, 0xFEFF, 0x200B] + LOOKALIKES),
         lambda: rng.choice([ord(c) for c in "(){}[]=#<>:,;+-*/'\\_09azAZxXfFgG \t\r\n"]),
     ]
     w = rng.choice([[6, 2, 1, 3], [1, 6, 1, 2], [2, 2, 4, 2], [1, 1, 1, 6]])
     return [rng.choices(pools, w)[0]() for _ in range(n)]
+
+
+def lookalike_texts():
+    """every look-alike on its own, between / in front of / behind tokens, inside a comment and a character literal"""
+    a, b = ord("a"), ord("b")
+    for c in LOOKALIKES:
+        yield [c]
+        yield [a, c, b]
+        yield [c] + [ord(x) for x in "proc main() {}"] + [10]
+        yield [ord("i"), ord("f"), c, ord("(")]
+        yield [a, 32, c, 32, b, c]
+        yield [47, 47, c, a, 10, c, b]
+        yield [39, c, 39, c]
+        yield [ord("0"), c, ord("x"), ord("1")]
 
 
 def is_alnum_trunc(c):
